@@ -470,7 +470,11 @@ fn check_balance<'ctx>(
     if balance.is_zero() {
         return Ok(());
     }
-    if let Some((a1, a2)) = balance.maybe_pair() {
+    if let Some((a1, a2)) = balance
+        .maybe_pair()
+        .filter(|(a1, a2)| a1.value.is_sign_positive() != a2.value.is_sign_positive())
+    {
+        // Two commodities with the opposite sign are an implied exchange of a1 against a2.
         // fill in converted amount.
         for p in postings.iter_mut() {
             let amount: Result<SingleAmount<'_>, _> = (&p.amount).try_into();
